@@ -3,6 +3,7 @@
 # Confirms a seeded change in its scratch worktree /tmp/mut/<name>: compiles, existing suite passes (except the 6
 # baseline trickfs failures), demo fails with the change and passes without it. Writes seeded/<name>/confirm.log.
 name="$1"; wt=/tmp/mut/$name; out=/verif/seeded/$name; lc=$(echo ${name%%-*} | tr A-Z a-z)
+orig=$(ls $out/patch.orig-*.diff 2>/dev/null | head -1); PATCH=${orig:-$out/patch.diff}
 demo=$(basename $(ls $out/seeded_*.rs | head -1) .rs)
 crate=nomt; [ -f $wt/core/tests/$demo.rs ] && crate=nomt-core
 feat=""; grep -q "verif" $out/$demo.rs && [ $crate = nomt ] && feat="--features verif-hooks"
@@ -11,13 +12,13 @@ cd $wt || exit 2
 log=$out/confirm.log; : > $log
 clean() { rm -rf $wt/nomt/test $wt/test $wt/core/test; }
 echo "## worktree state" >> $log; git status --short >> $log
-git apply --check -R $out/patch.diff 2>>$log && echo "patch is applied in worktree" >> $log
+git apply --check -R $PATCH 2>>$log && echo "patch is applied in worktree" >> $log
 echo "## suite with change (expect only 6 trickfs failures + the demo)" >> $log
 cargo test --workspace --offline -j 8 --no-fail-fast 2>&1 | grep -E "^test result|FAILED|failed|^test .* FAILED|panicked" | sort | uniq -c | sort -rn | head -40 >> $log; clean
 echo "## demo with change (expect FAIL)" >> $log
 cargo test --offline -j 8 -p $crate $feat --test $demo 2>&1 | grep -E "^test |test result" >> $log; clean
-git apply -R $out/patch.diff
+git apply -R $PATCH
 echo "## demo without change (expect PASS)" >> $log
 cargo test --offline -j 8 -p $crate $feat --test $demo 2>&1 | grep -E "^test |test result" >> $log; clean
-git apply $out/patch.diff
+git apply $PATCH
 echo done >> $log
